@@ -557,6 +557,28 @@ fn get_cell_from_excel(
     }
 }
 
+/// Resolves the `Target` of a relationship of the part `part_path` (say `xl/worksheets/sheet1.xml`):
+/// an absolute target (`/xl/comments1.xml`) is taken from the root of the package, a relative one
+/// (`../comments1.xml`) from the directory of the part.
+fn resolve_target(part_path: &str, target: &str) -> String {
+    if let Some(absolute) = target.strip_prefix('/') {
+        return absolute.to_string();
+    }
+    let mut segments: Vec<&str> = part_path.split('/').collect();
+    // the file name of the part
+    segments.pop();
+    for segment in target.split('/') {
+        match segment {
+            ".." => {
+                segments.pop();
+            }
+            "." | "" => {}
+            _ => segments.push(segment),
+        }
+    }
+    segments.join("/")
+}
+
 fn load_sheet_rels<R: Read + std::io::Seek>(
     archive: &mut zip::read::ZipArchive<R>,
     path: &str,
@@ -567,11 +589,12 @@ fn load_sheet_rels<R: Read + std::io::Seek>(
     let mut comments = Vec::new();
     // relationship id ("rId4") -> target of the hyperlink
     let mut hyperlinks = HashMap::new();
-    let v: Vec<&str> = path.split("/worksheets/").collect();
-    let mut path = v[0].to_string();
-    path.push_str("/worksheets/_rels/");
-    path.push_str(v[1]);
-    path.push_str(".rels");
+    // the relationships of a part live next to it, whatever its directory is
+    let part_path = path;
+    let path = match part_path.rsplit_once('/') {
+        Some((directory, file_name)) => format!("{directory}/_rels/{file_name}.rels"),
+        None => format!("_rels/{part_path}.rels"),
+    };
     let file = archive.by_name(&path);
     if file.is_err() {
         return Ok((comments, hyperlinks));
@@ -590,25 +613,16 @@ fn load_sheet_rels<R: Read + std::io::Seek>(
     for rel in rels {
         let t = get_attribute(&rel, "Type")?.to_string();
         if t.ends_with("comments") {
-            let mut target = get_attribute(&rel, "Target")?.to_string();
             // Target="../comments1.xlsx"
-            target.replace_range(..2, v[0]);
+            let target = resolve_target(part_path, get_attribute(&rel, "Target")?);
             comments = load_comments(archive, &target)?;
         } else if t.ends_with("hyperlink") {
             let id = get_attribute(&rel, "Id")?.to_string();
             let target = get_attribute(&rel, "Target")?.to_string();
             hyperlinks.insert(id, target);
         } else if t.ends_with("table") {
-            let mut target = get_attribute(&rel, "Target")?.to_string();
-
-            let path = if let Some(p) = target.strip_prefix('/') {
-                p.to_string()
-            } else {
-                // Target="../table1.xlsx"
-                target.replace_range(..2, v[0]);
-                target
-            };
-
+            // Target="../table1.xlsx"
+            let path = resolve_target(part_path, get_attribute(&rel, "Target")?);
             let table = load_table(archive, &path, sheet_name)?;
             tables.insert(table.name.clone(), table);
         }
